@@ -36,13 +36,14 @@ def random_scenarios(seed, n_bounded, n_unbounded, quick=True):
         out.append(base(seed * 100000 + i, size=size, chunk=rnd.choice([1000, 4096, 50000]), bi=rnd.choice([1, 1, 2, 4, 8]),
                         uni=rnd.choice([0, 1, 3]), faults=f, lat_ms=rnd.choice([1, 5, 30]), max_segments=rnd.choice([1, 4, 64]),
                         sparams=dict(params), cparams=dict(params), deadline_ms=240000))
-    # replays: a genuine datagram is delivered again long after the receiver acknowledged it and rotated its record out
-    for i in range(max(4, n_bounded // 8)):
+    # replays: a genuine datagram is delivered again long after the receiver acknowledged it and rotated its record out of the
+    # journal (records rotate when acknowledgements keep arriving 3 PTO later: the application keeps the connection busy)
+    for i in range(max(6, n_bounded // 6)):
         f = {"c2s": {}, "s2c": {}}
-        for _ in range(3):
-            f[rnd.choice(["c2s", "s2c"])][str(rnd.randrange(3, 14))] = ["duplate", rnd.choice([400, 900, 1500, 2500])]
-        out.append(base(seed * 100000 + 70000 + i, size=rnd.choice([3000, 20000]), faults=f, lingers=True,
-                        sparams={"idle_ms": 4000}, cparams={"idle_ms": 4000}, deadline_ms=20000))
+        for _ in range(4):
+            f[rnd.choice(["c2s", "c2s", "s2c"])][str(rnd.randrange(3, 16))] = ["duplate", rnd.choice([400, 700, 1000, 1400])]
+        out.append(base(seed * 100000 + 70000 + i, size=30000, chunk=1000, pace_ms=rnd.choice([30, 50]), bi=1, uni=1, faults=f,
+                        deadline_ms=60000))
     for i in range(n_unbounded):
         kind = rnd.choice(["bh_c2s", "bh_s2c", "bh_both", "corrupt"])
         at = rnd.choice([0, 1, 3, 6, 12, 30])
